@@ -1,2 +1,135 @@
-(* placeholder while the proofs are being written *)
-From YV Require Import model.Sched.
+(* C17 — fiber fault-injection runs are reproducible from (program, seed, fault configuration).
+   Statements only; the proofs are in proofs/SchedProofs.v, the machine in model/Sched.v.
+
+   [Sched.run cf draws alloc fuel s] is a Gallina FUNCTION: that the same inputs give the same trace is vacuous.  What a
+   re-run (in the same process or in a new one) does NOT share with the original run is
+     - the fiber ids (FiberBase::_id comes from a process-global counter that is never reset),
+     - the value of the virtual clock (a Scheduler that is used again continues its clock; a restored run starts at
+       another time than the point it restores),
+     - how many fibers had been created before,
+   and what a restore gives back is only the pair (GetFaultRandomCount(), GetInjectorState()).  The theorems say that
+   none of the three matters and that the pair is enough.  They hold for every configuration, every program (fibers
+   are arbitrary action lists, arbitrarily many), every engine output sequence and every number of steps. *)
+From Coq Require Import List Arith Bool NArith.
+Import ListNotations.
+From YV Require Import model.Sched model.SchedObs proofs.SchedProofs.
+
+(* The switch trace (resumed fibers, injection points, picks, draws, CAS results, wait results, recorded pairs) is
+   equivariant under ANY injective renaming of the fiber ids, for any state whatsoever. *)
+Theorem c17_id_renaming : forall rho, injective rho ->
+  forall cf draws alloc fuel s,
+  run cf draws (fun k => rho (alloc k)) fuel (ren_st rho s) = map (ren_obs rho) (run cf draws alloc fuel s).
+Proof. exact id_renaming. Qed.
+Print Assumptions c17_id_renaming.
+
+(* Shifting _time and all absolute deadlines (sleep-map keys, deadlines of waits in progress) by D changes nothing
+   but the time stamps, which move by D. *)
+Theorem c17_time_shift : forall D cf draws alloc fuel s,
+  run cf draws alloc fuel (shift_st D s) = map (shift_obs D) (run cf draws alloc fuel s).
+Proof. exact time_shift. Qed.
+Print Assumptions c17_time_shift.
+
+(* Checkpoint: at a quiescent point (only the driver exists and runs; nothing queued, asleep, parked, locked,
+   joinable) the rest of the run is determined by the driver's remaining program, the random count and the injector
+   state, up to the renaming rho of ids, the offset D of the clock and the offset dn of the fiber counter. *)
+Theorem c17_checkpoint : forall rho, injective rho -> forall D dn cf draws alloc1 alloc2,
+  (forall k, alloc2 (k + dn) = rho (alloc1 k)) ->
+  forall s1 s2 d1 r1 r2,
+  quiescent_at s1 d1 r1 -> quiescent_at s2 (rho d1) r2 ->
+  prog r2 = prog r1 -> lastcas r2 = lastcas r1 -> lastto r2 = lastto r1 ->
+  rc s2 = rc s1 -> inj s2 = inj s1 -> now s2 = (now s1 + D)%N -> nsp s2 = nsp s1 + dn ->
+  forall fuel, run cf draws alloc2 fuel s2 = map (xobs rho D) (run cf draws alloc1 fuel s1).
+Proof. exact checkpoint. Qed.
+Print Assumptions c17_checkpoint.
+
+(* The k-th GetRandNumber consumes engine output k: the draw indices along a run are consecutive from the random
+   count of the first state to that of the last, each value is the output reduced modulo the requested bound... *)
+Theorem c17_draws_counted : forall cf draws alloc fuel s,
+  draw_idx (run cf draws alloc fuel s) = seq (rc s) (rc (steps cf draws alloc fuel s) - rc s) /\
+  rc s <= rc (steps cf draws alloc fuel s) /\
+  Forall (draw_ok draws) (run cf draws alloc fuel s).
+Proof. exact draws_counted. Qed.
+Print Assumptions c17_draws_counted.
+
+(* ... and nothing before the random count is ever looked at: the recorded count identifies the position. *)
+Theorem c17_draws_only_from_count : forall cf d1 d2 alloc fuel s,
+  (forall k, rc s <= k -> d1 k = d2 k) -> run cf d1 alloc fuel s = run cf d2 alloc fuel s.
+Proof. exact run_ext. Qed.
+Print Assumptions c17_draws_only_from_count.
+
+(* Sanity: virtual time never goes back. *)
+Theorem c17_time_monotone : forall cf draws alloc fuel s, (now s <= now (steps cf draws alloc fuel s))%N.
+Proof. exact time_monotone. Qed.
+Print Assumptions c17_time_monotone.
+
+(* ------------------------------------------------------------------ non-vacuity: traces of the real library *)
+Local Open Scope N_scope.
+
+Definition ex_cfg := {| freq := 3; casf := 2; pick := 2; tick := 10; slpt := 100 |}.
+(* std::mt19937_64(7) *)
+Definition ex_draws : list N :=
+  [13915952638675311015; 17511516338625233250; 2165911192842364878; 16452894106784333046; 2606000371313139421;
+   1016289395134552428; 15357338357345460609; 16615175643761230918; 4743729080978854881; 13243022433781402340;
+   13941035240827299646; 10997741858636686065; 7331574580866239343; 5691350275017069054; 15350796991450887192;
+   5607905465249041865; 18359340204918669677; 18329657575484428161; 15984887928209472747; 4936558332189375254;
+   11447340566570368249; 5392342812574633292; 797290882164269140; 617012150084278735; 2281509786934503201;
+   3112409877512856908; 6771918233857365279; 6104632262489155568; 12303327720558391815; 11845207751115688266;
+   9224575002857886219; 328581187803908852; 4996329703343035885; 12969723129896619557; 8004586843546654860;
+   16594028769389790614].
+(* h_c17 --prog 'f0(a w a) f1(l0 t0,0,25 u0) f2(s10 l0 n0 u0) f3(a) a w j0 j1 j2 j3 p f4(Q1,20) f5(s5 k1) j4 j5'
+         --place main --seed 7 --freq 3 --cas 2 --pick 2 --tick 10 --sleeptime 100 *)
+Definition ex_prog : list cmd :=
+  [CSpawn 0 [CAtomic; CCasW; CAtomic]; CSpawn 1 [CLock 0; CCvWaitFor 0 0 25; CUnlock 0];
+   CSpawn 2 [CSleep 10; CLock 0; CCvNotifyOne 0; CUnlock 0]; CSpawn 3 [CAtomic]; CAtomic; CCasW;
+   CJoin 0; CJoin 1; CJoin 2; CJoin 3; CPhase; CSpawn 4 [CQWaitFor 1 20]; CSpawn 5 [CSleep 5; CQNotifyOne 1];
+   CJoin 4; CJoin 5].
+Definition ex_rest : list cmd := [CPhase; CSpawn 4 [CQWaitFor 1 20]; CSpawn 5 [CSleep 5; CQNotifyOne 1]; CJoin 4; CJoin 5].
+
+(* The model predicts, token by token, what the recorder saw on the real library (7 fibers, injected yields, two
+   spurious CAS failures, a timed wait that was notified, the recorded pair (29, 1), final count 36, state 1, time 220). *)
+Example c17_real_trace :
+  obs_N ex_cfg ex_draws 0 0 2 0 0 2000 ex_prog =
+  [3; 1; 4; 4; 1; 2; 10; 2; 2; 5; 4; 2; 2; 2; 4; 3; 3; 5; 4; 4; 1; 2; 20; 6; 2; 0; 3; 4; 4; 4; 1; 4; 30; 2; 2; 2; 2; 4;
+   3; 3; 4; 4; 4; 1; 5; 40; 3; 3; 4; 4; 1; 4; 50; 4; 100; 3; 3; 4; 4; 1; 3; 60; 2; 2; 5; 4; 2; 2; 2; 4; 3; 3; 3; 4; 4;
+   1; 5; 70; 2; 2; 2; 3; 1; 4; 4; 2; 4; 3; 3; 4; 4; 4; 1; 3; 80; 6; 3; 0; 2; 2; 3; 4; 4; 4; 1; 4; 90; 3; 3; 4; 4; 1; 5;
+   100; 2; 3; 1; 4; 4; 2; 4; 3; 3; 4; 4; 4; 1; 2; 110; 3; 3; 4; 4; 1; 6; 120; 2; 2; 4; 3; 3; 3; 4; 4; 1; 5; 130; 3; 2;
+   4; 4; 1; 6; 140; 3; 1; 4; 4; 1; 4; 150; 2; 2; 7; 4; 0; 2; 4; 3; 3; 1; 4; 4; 1; 4; 160; 2; 3; 1; 4; 4; 1; 2; 170; 9;
+   29; 1; 3; 2; 4; 4; 1; 8; 180; 3; 1; 4; 4; 1; 7; 190; 4; 100; 3; 1; 4; 4; 1; 8; 200; 3; 1; 4; 4; 3; 1; 4; 4; 1; 7;
+   210; 7; 7; 0; 3; 1; 4; 4; 1; 2; 220] ++ [0; 1; 0; 36; 1; 0; 220].
+Proof. vm_compute. reflexivity. Qed.
+
+(* The run restored in a fresh process from the recorded pair (h_c17 ... --from 1 --count 29 --state 1): the model
+   started at the quiescent state (time 10, driver 2, rc 29, inj 1) predicts it ... *)
+Example c17_real_restored_trace :
+  obs_N ex_cfg ex_draws 1 10 2 29 1 2000 ex_rest =
+  [9; 29; 1; 3; 2; 4; 4; 1; 4; 20; 3; 1; 4; 4; 1; 3; 30; 4; 100; 3; 1; 4; 4; 1; 4; 40; 3; 1; 4; 4; 3; 1; 4; 4; 1; 3; 50;
+   7; 3; 0; 3; 1; 4; 4; 1; 2; 60] ++ [0; 1; 0; 36; 1; 0; 60].
+Proof. vm_compute. reflexivity. Qed.
+
+(* ... and the original run is indeed at a quiescent point when it records the pair: after 73 steps the state is
+   quiescent with (rc, inj) = (29, 1), the clock shows 170 and four fibers have been created; so c17_checkpoint applies
+   with D = 160, dn = 4 ... *)
+Example c17_checkpoint_applies :
+  let s := steps ex_cfg (draws_of ex_draws) (fun k => (3 + k)%nat) 73 (start 0 0 2 ex_prog 0 0) in
+  quiescentb s = true /\ rc s = 29%nat /\ inj s = 1 /\ now s = 170 /\ nsp s = 4%nat /\
+  option_map (fun r => prog r) (fget 2%nat (fibers s)) = Some (expand ex_rest).
+Proof. vm_compute. repeat split. Qed.
+
+(* ... and its remainder equals the restored run up to ids (+4 on the new fibers) and the clock (+160). *)
+Example c17_checkpoint_instance :
+  let rho := fun f : fid => if Nat.leb 3 f then (f + 4)%nat else f in
+  run ex_cfg (draws_of ex_draws) (fun k => (3 + k)%nat) 2000
+      (steps ex_cfg (draws_of ex_draws) (fun k => (3 + k)%nat) 73 (start 0 0 2 ex_prog 0 0)) =
+  map (xobs rho 160)
+      (run ex_cfg (draws_of ex_draws) (fun k => (3 + k)%nat) 2000 (start 1 10 2 ex_rest 29 1)).
+Proof. vm_compute. reflexivity. Qed.
+
+(* BiList::GetElement's wrap-around as written: with pick width 2, v = 3 means "reversed, position 1"; on a list of
+   one node the position wraps to the front (index 0); with pick width 10 and 3 nodes, v = 15 (reversed, position 5)
+   gives index (3 - 5 mod 3) mod 3 = 1, not the 0 a true backward walk would reach. *)
+Example c17_poll_index_wrap :
+  poll_index ex_cfg 1 3 = 0%nat /\
+  poll_index {| freq := 3; casf := 2; pick := 10; tick := 10; slpt := 100 |} 3 15 = 1%nat /\
+  poll_index {| freq := 3; casf := 2; pick := 10; tick := 10; slpt := 100 |} 3 12 = 0%nat /\
+  poll_index {| freq := 3; casf := 2; pick := 10; tick := 10; slpt := 100 |} 3 4 = 1%nat.
+Proof. vm_compute. repeat split. Qed.
